@@ -89,3 +89,11 @@ fire("C42", "subroutine-cache-keyed-on-name-and-input-avals",
      (_BI, "    if jaxpr in self.subroutine_cache:\n        new_jaxpr = self.subroutine_cache[jaxpr]\n    else:\n        new_jaxpr = jaxpr_to_jaxpr(copy(self), jaxpr.jaxpr, jaxpr.consts, *invals)\n        self.subroutine_cache[jaxpr] = new_jaxpr",
            "    key = (params[\"name\"], tuple(jaxpr.in_avals))\n    if key in self.subroutine_cache:\n        new_jaxpr = self.subroutine_cache[key]\n    else:\n        new_jaxpr = jaxpr_to_jaxpr(copy(self), jaxpr.jaxpr, jaxpr.consts, *invals)\n        self.subroutine_cache[key] = new_jaxpr"),
      "R-C42-memo", "_quantum_subroutine")
+
+# --- R-C42-ctrlorder
+fire("C42", "merged-control-values-appended-while-wires-are-prepended",
+     ("pennylane/ops/op_math/controlled2.py", "            control_values = list(self.control_values) + eqns[0].invars[-n_ctrls:]", "            control_values = eqns[0].invars[-n_ctrls:] + list(self.control_values)"),
+     "R-C42-ctrlorder", "_bind_primitive")
+silent("C42", "merged-controls-both-appended",
+       [("pennylane/ops/op_math/controlled2.py", "            control_wires = self.control_wires.tolist() + eqns[0].invars[-2 * n_ctrls : -n_ctrls]\n            control_values = list(self.control_values) + eqns[0].invars[-n_ctrls:]",
+         "            inner_wires = eqns[0].invars[-2 * n_ctrls : -n_ctrls]\n            control_wires = self.control_wires.tolist() + inner_wires\n            control_values = list(self.control_values) + eqns[0].invars[-n_ctrls:]")])
